@@ -408,9 +408,16 @@ pub fn check(rep: &Reporter) {
 		let (rq, rs) = grid[gi];
 		let Some(msg) = message(n, pad) else { return };
 		let is_ws = matches!(entry, Entry::TowerWs | Entry::LowWsConnect | Entry::ServerTcpWs);
-		let res = rt.block_on(async {
+		let is_tcp = matches!(entry, Entry::ServerTcpHttp | Entry::ServerTcpWs);
+		let mut res = rt.block_on(async {
 			if is_ws { run_ws(entry, rq, rs, &msg).await } else { run_http(entry, rq, rs, &msg, variant).await }
 		});
+		// kernel sockets and wall-clock timeouts: a transport problem on the TCP entry points must reproduce to count
+		let mut attempts = 1;
+		while is_tcp && res.is_err() && attempts < 3 {
+			attempts += 1;
+			res = rt.block_on(async { if is_ws { run_ws(entry, rq, rs, &msg).await } else { run_http(entry, rq, rs, &msg, variant).await } });
+		}
 		let case = json!({"engine":"ENUM","max_request_body_size": rq, "max_response_body_size": rs, "message_bytes": n, "padding": format!("{pad:?}"),
 			"entry_point": format!("{entry:?}"), "http_variant": if is_ws { Value::Null } else { json!(format!("{variant:?}")) }, "outcome": format!("{res:?}")});
 		let sigfeat = format!("{entry:?}{}", if is_ws { String::new() } else { format!(":{variant:?}") });
